@@ -20,6 +20,8 @@ HDR = 'celma/common/fixed_string.hpp'
 
 DROP_SIG = re.compile(r'iterator|initializer_list|template< size_t S>|::sprintf')
 DROP_BODY = re.compile(r'\bc?r?(begin|end)\(\)|const_iterator|iterator\(')
+ACCESSOR_DECL = re.compile(r'^   (const_)?(reverse_)?iterator c?r?(begin|end)\(\)( const)? noexcept;\n$')
+ACCESSOR_DEF = re.compile(r'FixedString< L>::c?r?(begin|end)\(\)\s*(const)?\s*(noexcept)?\s*$')
 
 
 def extract(shadow):
@@ -33,11 +35,16 @@ def extract(shadow):
 
         def drop_decl(m):
             d = m.group(0)
+            if ACCESSOR_DECL.search(d):
+                return d
             if re.search(r'iterator|initializer_list|template< size_t S>|sprintf', d):
                 dropped.append('decl: ' + ' '.join(d.split()))
                 return ''
             return d
-        cls, n_alias = re.subn(r'^   using \w*iterator =[^;]*;\n', '', cls, flags=re.M)
+        # T-INST of the iterator templates (see extract_iterators).  The four alias declarations are dropped and every use is
+        # spelled with the instantiated class name: an in-class typedef of a class type is laid out as a data member by the
+        # front end (measured: sizeof grows by the size of the four iterator objects)
+        cls, n_alias = re.subn(r'^   using (const_)?(reverse_)?iterator =\s*detail::FixedString(Reverse)?Iterator<[^;]*;\n', '', cls, flags=re.M)
         if n_alias != 4:
             raise Undecided('extraction: expected 4 iterator aliases in FixedString, found %d' % n_alias)
         cls = re.sub(r'^   (?!//|/\*|using|typedef|private:|public:)[^;{}]*?;\n', drop_decl, cls, flags=re.M)
@@ -48,11 +55,22 @@ def extract(shadow):
                 keep.append(p)
                 continue
             sig = p[:p.index('{')] if '{' in p else p
+            if ACCESSOR_DEF.search(sig):
+                keep.append(p)
+                continue
             if DROP_SIG.search(sig) or DROP_BODY.search(p):
                 dropped.append('def: ' + ' '.join(sig.split()))
                 continue
             keep.append(p)
-        return head + cls + ''.join(keep)
+        def itname(m):
+            return 'detail::FixedString%sIterator' % ('Reverse' if m.group(2) else '')
+        cls = re.sub(r'^(   )(const_)?(reverse_)?iterator (c?r?(?:begin|end)\(\))', lambda m: '%sdetail::FixedString%sIterator %s' % (m.group(1), 'Reverse' if m.group(3) else '', m.group(4)), cls, flags=re.M)
+        body = ''.join(keep)
+        body, n1 = re.subn(r'typename FixedString< L>::(const_)?(reverse_)?iterator', itname, body)
+        body, n2 = re.subn(r'return (const_)?(reverse_)?iterator\(', lambda m: 'return ' + itname(m) + '(', body)
+        if (n1, n2) != (12, 12):
+            raise Undecided('extraction: iterator accessor rewriting fired %d / %d times, expected 12 / 12' % (n1, n2))
+        return head + cls + body
 
     rules = [
         Rule('R-NNS-open', r'^namespace celma::common \{', 'namespace celma { namespace common {', 1),
@@ -68,17 +86,51 @@ def extract(shadow):
              'template< size_t L>\n   bool cv_op_eq( const FixedString< L>& lhs, const FixedString< L>& rhs)', 1),
         Rule('T-INST-opne', r'template< size_t L, size_t S>\n   bool operator !=\( const FixedString< L>& lhs, const FixedString< S>& rhs\)',
              'template< size_t L>\n   bool cv_op_ne( const FixedString< L>& lhs, const FixedString< L>& rhs)', 1),
+        # const iterators: both instantiations are bound to the same class (the front end loses const on class types)
+        Rule('R-CONST-iter', r'(return detail::FixedString(?:Reverse)?Iterator\( (?:true, )?)this\);(\n\} // FixedString< L>::c?r?(?:begin|end)\n)', r'\1const_cast< FixedString*>( this));\2', 12),
+        Rule('T-INST-fwd', r'^template< size_t L> class FixedString\n', 'namespace detail { class FixedStringIterator; class FixedStringReverseIterator; }\ntemplate< size_t L> class FixedString\n', 1),
+        Rule('T-INST-include-late', r'^// =====  END OF fixed_string.hpp  =====', 'typedef celma::common::FixedString< CV_L> CV_FS;\n#include "celma/common/detail/fixed_string_iterator.hpp"\n'
+             '#include "celma/common/detail/fixed_string_reverse_iterator.hpp"\n// =====  END OF fixed_string.hpp  =====', 1),
         Rule('drop-ostream', r'^template< size_t L>\n   std::ostream& operator <<\(.*?\n\} // operator <<\n', '', 1,
              flags=re.M | re.S),
     ]
     path = shadow.extract(HDR, rules, pre=pre)
     n_decl = sum(1 for d in dropped if d.startswith('decl'))
     n_def = sum(1 for d in dropped if d.startswith('def'))
-    if not (35 <= n_decl <= 50 and 35 <= n_def <= 50):
-        raise Undecided('extraction: dropped %d declarations / %d definitions of FixedString, expected about 43/42'
+    if not (25 <= n_decl <= 40 and 25 <= n_def <= 40):
+        raise Undecided('extraction: dropped %d declarations / %d definitions of FixedString, expected about 31/30'
                         % (n_decl, n_def))
     shadow.dropped += dropped
+    extract_iterators(shadow)
     return path
+
+
+def extract_iterators(shadow):
+    """The two iterator class templates, textually instantiated with T := char, F := FixedString< CV_L> (the front end aborts
+    on out-of-class constructor definitions of class templates)."""
+    for name, cls in (('fixed_string_iterator', 'FixedStringIterator'), ('fixed_string_reverse_iterator', 'FixedStringReverseIterator')):
+        shadow.extract('celma/common/detail/%s.hpp' % name, [
+            Rule('R-NNS3-open', r'^namespace (\w+)::(\w+)::(\w+) \{', r'namespace \1 { namespace \2 { namespace \3 {', 1),
+            Rule('R-NNS3-close', r'^\} // namespace \w+::\w+::\w+', '}}}', 1),
+            Rule('T-INST-tmpl', r'template< typename T, typename F>\s*', '', (18, 22)),
+            Rule('T-INST-cls', r'%s< T, F>' % cls, cls, (30, 70)),
+            Rule('T-INST-typename', r'typename (%s::reference)' % cls, r'\1', 2),
+            Rule('T-INST-T', r'\bT&', 'char&', 1),
+            Rule('T-INST-F', r'\bF\*', 'CV_FS*', (4, 8)),
+            Rule('drop-base', r'class %s final:\n   public std::iterator< std::random_access_iterator_tag, void\*>' % cls, 'class %s' % cls, 1),
+            Rule('R-ALIAS', r'^(\s*)using (\w+) = ([^;]+);', r'\1typedef \3 \2;', 1),
+            Rule('R-DEFAULT', r'^[^\n]*= default;\n', '', 6),
+            Rule('R-CONSTEXPR', r'static constexpr size_t  EndValue = std::numeric_limits< uint64_t>::max\(\);', 'static const size_t  EndValue = 18446744073709551615UL;', 1),
+            # R-NSDMI: the default member initialisers (mpObject = nullptr, mIndex = EndValue) are ignored by the front end; the two
+            # constructors that rely on `mIndex = EndValue` get it as mem-initialiser (the default constructor is not under contract)
+            Rule('R-NSDMI-ctor', r'(Iterator\( (?:bool, )?CV_FS\* obj\):\n\s*mpObject\( obj\))\n', r'\1, mIndex( EndValue)\n', 2),
+            Rule('R-NSDMI-drop', r'^(   (?:CV_FS\*|size_t)\s+m\w+) = [^;]+;', r'\1;', 2),
+            Rule('R-AUTO-self', r'auto  copy\( \*this\);', cls + '  copy( *this);', 2),
+            Rule('R-ACCESS', r'^private:', 'public:', 1),
+            Rule('R-THROW', r'throw std::(invalid_argument|range_error)\([^;]*\);', 'CV_THROW_IT( 1);', (3, 6), flags=re.M | re.S),
+            Rule('R-PREPOST-pre', r'\( std::prefix\)', '()', 2), Rule('R-PREPOST-post', r'\( std::postfix\)', '( int)', 2)])
+    shadow.scratch.write('shadow/celma/common/pre_postfix.hpp', '#pragma once\nnamespace std { typedef void prefix; typedef int postfix; }\n')
+    shadow.dropped += ['FixedStringIterator() / FixedStringReverseIterator() default constructors']
 
 
 # --------------------------------------------------------------------------------------------
@@ -97,6 +149,7 @@ class M:
         self.dom10 = dom10        # documented precondition that holds even for C10 (e.g. operator[])
         self.doc = doc
         self.ctor = False
+        self.ens10 = []           # extra postconditions that belong to C10 (e.g. the iterator invariant)
         self.raw = None           # C++ body of the wrapper when it is not a plain member call
 
 
@@ -181,8 +234,10 @@ def wrappers_text(L, methods):
          '#include <cstdint>', '#include <cstring>', '#include <string>',
          'extern "C" int cv_thrown;',
          '#define CV_THROW(k) { cv_thrown = (k); return mString[ 0]; }',
+         '#define CV_THROW_IT(k) { cv_thrown = (k); __CPROVER_assume(0); }   /* a throw in an iterator ends the call */',
+         '#define CV_L %d' % L, '#include <stdexcept>', '#include <iterator>', '#include <limits>', '#include "celma/common/pre_postfix.hpp"',
          '#include "%s"' % HDR,
-         'typedef celma::common::FixedString<%d> FS;' % L,
+         'typedef CV_FS FS;   /* = celma::common::FixedString< CV_L>, instantiated once at the end of the shadow header */',
          'extern "C" {',
          'size_t w_sizeof() { return sizeof(FS); }',
          'size_t w_length(const void* self) { return static_cast<const FS*>(self)->mLength; }',
@@ -209,7 +264,9 @@ def wrappers_text(L, methods):
                 pre.append('FS& %s = *static_cast<FS*>(%s_p);' % (name, name))
         call = 'static_cast<FS*>(self)->' + m.call
         if m.raw:
-            o.append('%s w_%s(%s) { %s %s }' % ({'v': 'void', 'B': 'int', 'z': 'size_t'}[m.ret], m.id, ', '.join(params), ' '.join(pre), m.raw.replace('{L}', str(L))))
+            if m.ret == 'str':
+                params += ['char* out', 'size_t out_cap']
+            o.append('%s w_%s(%s) { %s %s }' % ({'v': 'void', 'B': 'int', 'z': 'size_t', 'str': 'size_t', 'c': 'char'}[m.ret], m.id, ', '.join(params), ' '.join(pre), m.raw.replace('{L}', str(L))))
             continue
         if m.ret == 'r':
             body = ' '.join(pre) + ' FS& cv_r = %s; return &cv_r == static_cast<FS*>(self);' % call
@@ -362,10 +419,13 @@ def contract_text(m, L, K, c11, extra_req=()):
         assigns.append('__CPROVER_object_whole(out)')
     if m.ret == 'cT':
         assigns += ['*thrown', 'cv_thrown']
-    o.append('__CPROVER_assigns(%s)' % '; '.join(assigns))
+    assigns.append('cv_thrown')   # the R-THROW flag
+    o.append('__CPROVER_assigns(%s)' % '; '.join(dict.fromkeys(assigns)))
     o.append('__CPROVER_ensures(WF(self))')
     if m.ret == 'r':
         o.append('__CPROVER_ensures(R == 1)  /* returns *this */')
+    for cl in m.ens10:
+        o.append('__CPROVER_ensures(%s)' % cl)
     if m.mut:
         o.append('__CPROVER_ensures(!(OLD_NOZ%s) || NEW_NOZ(self))  /* no NUL stored => length is the C-string length */'
                  % ''.join(' && ' + z for z in noz))
@@ -471,8 +531,9 @@ class Unit:
                 return self._objsz[L]
         src = self.scratch.write('gen/sz_%d.cpp' % L,
                                  '#include <cstdint>\n#include <cstring>\n#include <string>\nextern "C" int cv_thrown;\n'
-                                 '#define CV_THROW(k) { cv_thrown = (k); return mString[ 0]; }\n'
-                                 '#include "%s"\nint cv_thrown;\nint main() { __CPROVER_assert(sizeof(celma::common::FixedString<%d>) == CV_SZ, "sz"); }\n' % (HDR, L))
+                                 '#define CV_THROW(k) { cv_thrown = (k); return mString[ 0]; }\n#define CV_THROW_IT(k) { cv_thrown = (k); __CPROVER_assume(0); }\n'
+                                 '#define CV_L %d\n#include <stdexcept>\n#include <iterator>\n#include <limits>\n#include "celma/common/pre_postfix.hpp"\n' % L +
+                                 '#include "%s"\nint cv_thrown;\nint main() { __CPROVER_assert(sizeof(CV_FS) == CV_SZ, "sz"); }\n' % HDR)
         st = size_type(L)
         lo = L + 1 + {'uint8_t': 1, 'uint16_t': 2, 'uint32_t': 4}[st]
         for cand in range(lo, lo + 10):
@@ -588,6 +649,6 @@ def evidence_info(unit, tier):
         'assumptions': ['per-instance proof: capacities ' + ('3, 5' if c11 else '1, 2, 3, 8') + ' (quick); 255/256 and 65535/65536 length-type boundaries not reached',
                         'source C-strings / std::string arguments of length <= L+3 (bounded); (str,count) buffers of <= L+3 bytes',
                         'throw in at() modelled by R-THROW (flag + return)', 'termination not proved',
-                        'iterator classes, iterator overloads, cross-capacity (template<size_t S>) overloads, sprintf, constructors and stream output are not under contract'],
+                        'iterator-taking overloads (insert/erase/replace/append with iterators), cross-capacity (template<size_t S>) overloads, sprintf, constructors and stream output are not under contract; the iterator classes themselves are (textual instantiation T := char, F := FixedString<L>)'],
         'not_under_contract': drops + ['FixedString(const char*) / FixedString(const std::string&) / move constructor (front end aborts on the out-of-class constructor definitions)'],
     }
